@@ -85,6 +85,9 @@ def check(ctx):
             n_instr += 1
             ctx.check(ok, "R05.1", "Instruction/appended-once-to-current-output-before-recursion/%d" % n_instr, ", ".join(short(c, 4) for c in pushes), at,
                       bad_detail="the instruction gene must be pushed exactly once as PushProgram::Instruction(gene) onto the current output before any recursive parse; pushes: " + ", ".join(short(c, 5) for c in pushes))
+            # the arm never leaves the parser: all num_opens blocks are parsed and the next gene is read
+            ctx.check(p.end.startswith("loop:"), "R05.2", "Instruction/arm-continues(no-early-exit-from-block-loop)/%d" % n_instr, p.end, at,
+                      bad_detail="a path through the Instruction arm leaves the parser (%s) before all of its num_opens() blocks were produced / the remaining genes were read: [%s]" % (p.end, cond_str(p)[-300:]))
             # block count loop
             lp = [c for c in p.conds if c[0][0] == "discr" and callee_is(c[0][1], "Iterator::next") and c[0][1] != nx[0]]
             okl = bool(lp) and match(lp[0][0][1][3][0], Through(Call("IntoIterator::into_iter", Agg("Range::Range", Const(0), Call("NumOpens::num_opens", Through(lambda e: e == instr), nargs=1)), nargs=1)))
